@@ -38,6 +38,8 @@ pub fn small() -> Vec<RVal> {
         s("%é %10N"),
         s("2020-02-29 10:00:00 +0100"),
         RVal::DateTime("9999-12-31 23:00:00 +0000".into()),
+        // long non-ASCII texts: byte offsets such as 80 fall inside a character
+        RVal::Str("aé".repeat(45)),
         arr(vec![]),
         mixed_array(25),
         obj(vec![("k", RVal::Int(1)), ("size", s("own"))]),
@@ -85,6 +87,8 @@ pub fn large() -> Vec<RVal> {
         s("%10"),
         s("<a>&"),
         s("a,b c"),
+        RVal::Str("👍é".repeat(25)),
+        arr((0..30).map(|_| s("ü")).collect()),
         s("2020-02-29"),
         s("now"),
         s("%Y-%m-%d %H:%M:%S.%L %z %s %U %V %G %j %e %^a %-d %_m %010Y %:z %::z %+ %c %D %é"),
